@@ -506,7 +506,6 @@ func c14History(g *sim.Genesis) sim.History {
 	}, emptyBlocks(5)...)}
 }
 
-
 func init() {
 	engine.Register("C14", func() engine.Check {
 		var fams []family
@@ -515,7 +514,9 @@ func init() {
 			ratio := ratio
 			fams = append(fams, family{Name: "slash/ratio" + ratio, Base: func() sim.History { return c14History(gWith(genesis3s(), "slashRatio", ratio)) },
 				Menu: []sim.TxSpec{vote("V0", 0, 0), vote("V1", 0, 1), stk("U1", "V1", "1R"), unstk("U0", "U0", "V1", 0)}, WithEnv: true, NAppend: 1, MaxD: 2, MaxDTh: 3,
-				Core: func(ss *slotSet, s slot, ch int) bool { return s.kind == slotEvidence || (s.kind == slotAbsent && ch <= 2) }})
+				Core: func(ss *slotSet, s slot, ch int) bool {
+					return s.kind == slotEvidence || (s.kind == slotAbsent && ch <= 2)
+				}})
 		}
 		for _, wp := range [][2]string{{"2", "2"}, {"4", "1"}} {
 			wp := wp
@@ -668,7 +669,9 @@ func govProbe(mc *modelCheck, mr *modelRun, h sim.History, res *engine.Result) [
 	return nil
 }
 
-func contains(s, sub string) bool { return len(sub) > 0 && len(s) >= len(sub) && (indexOf(s, sub) >= 0) }
+func contains(s, sub string) bool {
+	return len(sub) > 0 && len(s) >= len(sub) && (indexOf(s, sub) >= 0)
+}
 func indexOf(s, sub string) int {
 	for i := 0; i+len(sub) <= len(s); i++ {
 		if s[i:i+len(sub)] == sub {
